@@ -446,8 +446,9 @@ type Effect struct {
 	Path   []string `json:"path"`   // call chain from the root method
 	CType  string   `json:"ctype"`  // type of the written object (canonical: underlying type)
 
-	ctype types.Type // type of the object written (struct / slice / map / pointee) or of the escaping argument
-	arg   bool       // ctype is an argument handed to unanalysed code (filter by reachability from the argument)
+	ctype  types.Type // type of the object written (struct / slice / map / pointee) or of the escaping argument
+	arg    bool       // ctype is an argument handed to unanalysed code (filter by reachability from the argument)
+	cfield string     // for a store through a field address: the name of that field of ctype (used by variants.go)
 }
 
 func (e Effect) key() string { return e.Kind + "|" + e.Fn + "|" + e.Detail + "|" + e.Pos }
@@ -747,6 +748,8 @@ type fnAnalysis struct {
 	vals    map[ssa.Value]absval
 	changed bool
 	depth   int
+
+	curField string // set around the effect() call of a field store
 }
 
 func (fa *fnAnalysis) get(v ssa.Value) absval {
@@ -885,7 +888,7 @@ func holdLevel(b bits) bits {
 }
 
 func (fa *fnAnalysis) effect(kind, detail string, pos token.Pos, ctype types.Type, arg bool) {
-	e := Effect{Kind: kind, Fn: fnName(fa.fn), Detail: detail, Pos: fa.a.pos(pos), ctype: ctype, arg: arg}
+	e := Effect{Kind: kind, Fn: fnName(fa.fn), Detail: detail, Pos: fa.a.pos(pos), ctype: ctype, arg: arg, cfield: fa.curField}
 	if ctype != nil {
 		e.CType = canon(ctype)
 	}
@@ -1063,7 +1066,14 @@ func (fa *fnAnalysis) instr(ins ssa.Instruction) {
 		}
 
 		if addr.b&P != 0 {
+			if f, ok := x.Addr.(*ssa.FieldAddr); ok {
+				if st, ok := f.X.Type().Underlying().(*types.Pointer).Elem().Underlying().(*types.Struct); ok {
+					fa.curField = st.Field(f.Field).Name()
+				}
+			}
+
 			fa.effect("Store", fieldName(x.Addr), x.Pos(), containerOf(x.Addr), false)
+			fa.curField = ""
 		}
 
 		if addr.b&G != 0 && !isInit(fa.fn) {
@@ -1999,6 +2009,7 @@ func main() {
 	verbose := flag.Bool("v", false, "verbose")
 	full := flag.Bool("full", false, "type-check and build SSA for every dependency from source (slow; see the comment at packages.Load)")
 	whyType := flag.String("why", "", "print how this canonical type gets into each receiver's type structure")
+	vtrace := flag.String("vtrace", "", "trace the abstract interpretation of WithConfig of the mechanism types whose name contains this")
 	flag.Parse()
 
 	cfg := &packages.Config{
@@ -2150,6 +2161,8 @@ func main() {
 
 	var rows []Row
 
+	var rowTypes []types.Type
+
 	for _, kd := range kinds {
 		path := module + "/internal/rules/mechanisms/" + kd.Pkg
 		sp := prog.ImportedPackage(path)
@@ -2287,13 +2300,24 @@ func main() {
 			}
 
 			rows = append(rows, row)
+			rowTypes = append(rowTypes, t.Type())
 		}
 	}
 
 	phase("analysis")
 
+	// second half: how WithConfig builds the instance it returns (variants.go)
+	var vrows []VRow
+
+	for i, r := range rows {
+		a.rt = nil
+		vrows = append(vrows, a.variantRow(rowTypes[i], r, *vtrace != "" && strings.Contains(r.Type, *vtrace)))
+	}
+
+	phase("variants")
+
 	if *jsonOut != "" {
-		b, _ := json.MarshalIndent(map[string]any{"rows": rows, "whitelist_used": a.usedWL}, "", " ")
+		b, _ := json.MarshalIndent(map[string]any{"rows": rows, "variants": vrows, "whitelist_used": a.usedWL}, "", " ")
 		if err := os.WriteFile(*jsonOut, b, 0o644); err != nil {
 			fmt.Fprintln(os.Stderr, err)
 			os.Exit(2)
@@ -2345,6 +2369,11 @@ func main() {
 			"                    | Some _, Some _ => true | _, _ => false end) generated_table = true.\n" +
 			"Proof. split; [vm_compute; lia|vm_compute; reflexivity]. Qed.\n"
 		if err := os.WriteFile(filepath.Join(*out, "EffectsOk.v"), []byte(ok), 0o644); err != nil {
+			fmt.Fprintln(os.Stderr, err)
+			os.Exit(2)
+		}
+
+		if err := os.WriteFile(filepath.Join(*out, "Variants.v"), []byte(renderVariants(vrows)), 0o644); err != nil {
 			fmt.Fprintln(os.Stderr, err)
 			os.Exit(2)
 		}
